@@ -3,7 +3,7 @@ import GqlModel.Validate.Engine
 namespace Gql.Validate.Rules
 open Gql Gql.Validate
 
-def uniqueOperationNamesStep (_ : Schema) (_ : QueryDoc) (seen : List Name) (e : Event) : StepOut (List Name) :=
+def uniqueOperationNamesStep (_ : SV) (_ : QueryDoc) (seen : List Name) (e : Event) : StepOut (List Name) :=
   match e.p with
   | .operation op _ =>
     .ok (op.name :: seen)
